@@ -248,3 +248,88 @@ def chars_eq(a, b):
     if r is True or r is False:
         return r
     return sb(r)
+
+
+# ------------------------------------------------------------------ dataclass bodies
+class Field:
+    def __init__(self, name, annotation, default):
+        self.name, self.annotation, self.default = name, annotation, default  # char tuple, token list, token list | None
+
+    def __repr__(self):
+        return "%s: %s%s" % (show(self.name), " ".join(show(t.text) for t in self.annotation), "" if self.default is None else " = " + " ".join(show(t.text) for t in self.default))
+
+
+def _statements(body):
+    """split a suite's tokens into simple statements / (header, nested suite) pairs at indentation depth 0"""
+    out, cur, i, depth = [], [], 0, 0
+    while i < len(body):
+        t = body[i]
+        if t.kind == "OP" and t.text in "([{":
+            depth += 1
+        elif t.kind == "OP" and t.text in ")]}":
+            depth -= 1
+        if t.kind == "NEWLINE" and depth == 0:
+            if i + 1 < len(body) and body[i + 1].kind == "INDENT":
+                d, j = 1, i + 2
+                while d:
+                    if body[j].kind == "INDENT":
+                        d += 1
+                    elif body[j].kind == "DEDENT":
+                        d -= 1
+                    j += 1
+                out.append((cur, body[i + 2:j - 1]))
+                cur, i = [], j
+                continue
+            if cur:
+                out.append((cur, None))
+            cur = []
+        elif t.kind not in ("INDENT", "DEDENT"):
+            cur.append(t)
+        i += 1
+    if cur:
+        out.append((cur, None))
+    return out
+
+
+def dataclass_view(text, class_name):
+    """-> ({'fields': [Field], 'meta': {assignment name: [(key chars, value chars)]}}, error) for `class <class_name>` of the text"""
+    toks, err = tokens(text)
+    if toks is None:
+        return None, "does not lex: %s" % err
+    try:
+        i = 0
+        while i < len(toks):
+            if toks[i].is_kw("class") and toks[i + 1].kind == "NAME" and show(toks[i + 1].text) == class_name:
+                j = i + 2
+                if toks[j].is_op("("):
+                    j = _bracket_end(toks, j) + 1
+                _end, body = _skip_block(toks, j + 1)
+                fields, meta = [], {}
+                for stmt, suite in _statements(body):
+                    if suite is not None:
+                        if stmt and stmt[0].is_kw("class") and show(stmt[1].text) == "Meta":
+                            for st2, _s2 in _statements(suite):
+                                if len(st2) >= 3 and st2[0].kind == "NAME" and st2[1].is_op("=") and st2[2].is_op("{"):
+                                    pairs, k = [], 3
+                                    while k < len(st2) and not st2[k].is_op("}"):
+                                        if st2[k].kind == "STR" and st2[k + 1].is_op(":") and st2[k + 2].kind == "STR":
+                                            pairs.append((st2[k].text, st2[k + 2].text))
+                                            k += 3
+                                        else:
+                                            k += 1
+                                    meta[show(st2[0].text)] = pairs
+                        continue
+                    if len(stmt) >= 3 and stmt[0].kind == "NAME" and stmt[1].is_op(":"):
+                        depth, k = 0, 2
+                        while k < len(stmt) and not (depth == 0 and stmt[k].is_op("=")):
+                            if stmt[k].kind == "OP" and stmt[k].text in "([{":
+                                depth += 1
+                            elif stmt[k].kind == "OP" and stmt[k].text in ")]}":
+                                depth -= 1
+                            k += 1
+                        fields.append(Field(stmt[0].text, stmt[2:k], stmt[k + 1:] if k < len(stmt) else None))
+                return {"fields": fields, "meta": meta}, None
+            i += 1
+    except (ParseError, IndexError) as ex:
+        return None, "does not parse: %r" % (ex,)
+    return None, "class %s not found" % class_name
